@@ -50,6 +50,11 @@ type c18Sub struct {
 type c18Rm struct {
 	Rf  bool   `short:"r" long:"rf"`
 	Sub c18Sub `command:"sub"`
+	// a positional argument beside a subcommand: a word fills it first, even
+	// when it spells the subcommand's name
+	Pos struct {
+		T c18Val
+	} `positional-args:"y"`
 }
 type c18Hc struct {
 	Q bool `long:"q"`
@@ -129,7 +134,7 @@ func c18Ref(typed []c18Item, pending bool, P string) (out []string, cmd string, 
 				if w == "remove" {
 					cmd = "rm"
 				}
-				if cmd == "add" {
+				if cmd == "add" || cmd == "rm" {
 					posLeft = 1
 				}
 			case cmd == "rm" && w == "sub":
